@@ -14,6 +14,26 @@ CLAIMED = {
         "is an input of the constructor model; sleep/perf_counter_ns replaced by a logical clock. No axioms (Closed under the global context).",
    technique="Coq proof by induction over call histories on a model regenerated from source; differential run of extracted model vs policer.py",
    ref="5 C19"),
+ "C08": dict(
+   text="Coq theorems C08_sound / C08_never_different / C08_complete / C08_refuse* / C08_print_parse / C08_round_trip_canonical over "
+        "Model/OidText.v: for every text, the parser either errs (InvalidData, never a panic) or returns exactly the canonical X.690 octets of "
+        "the OID the text denotes; every text with >= 2 arcs, first <= 2, second <= 39, arcs <= 2^32-1 is accepted; printing the octets gives "
+        "back the canonical text.  The extracted model is run against SnmpOid::try_from / String::try_from (debug+release) on ~30k texts and the "
+        "wire image of get()/getnext() is checked against an independent parser and encoder.",
+   note="Trusted: Coq kernel; hand model of objectid.rs tied by differential execution each run; reference semantics (denotes, valid_arcs, "
+        "oid_content) defined in Coq; '+' and leading zeros accepted as Rust's u32::from_str does (recorded reading). No axioms.",
+   technique="Coq proof (parser soundness/completeness/print-parse) + differential run of extracted model vs Rust, API wire check",
+   ref="5 C08"),
+ "C17": dict(
+   text="Coq theorems C17_in_bounds (every sequence of buffer operations keeps 0 <= pos <= MAX_SIZE), C17_lengths (short/0x81/0x82 forms), "
+        "C17_oob_iff_community / C17_oob_iff_v3 (a request gives OutOfBuffer exactly when its reference encoding exceeds MAX_SIZE, otherwise the "
+        "whole reference encoding is produced), C17_push_written / C17_skip_contract / C17_reset (only skip exposes unwritten cells).  The buffer "
+        "and encoder model is run against the real Buffer and push_ber on op sequences and on messages swept octet by octet across 127/128, "
+        "255/256 and 4080; the real SnmpSession is driven across the 4080 boundary (SnmpEncodeError and nothing sent vs well-formed datagram).",
+   note="Partial by nature: the unsafe pointer code of buffer.rs is modelled as list operations with the bounds as proof obligations, not "
+        "verified against a memory model; MAX_SIZE is read from the source each run (Gen/Constants.v). No axioms.",
+   technique="Coq invariant over all operation sequences + refinement of encoders to a functional spec; differential run vs Rust; API sweep",
+   ref="5 C17"),
 }
 
 PENDING = "check not built yet in this round (see DESIGN.md section 7 for the order of work)"
